@@ -103,8 +103,15 @@ def _pairs(res):
         return [[-99, -99]]
 
 
-def _maxo(maxo):
-    return None if not maxo else int(maxo[0])
+def _kw(s, maxo):
+    """Keyword arguments as a caller would write them: an argument that is None is left out (so the
+    defaults of the real signature are part of what is judged)."""
+    kw = {}
+    if s is not None:
+        kw["scores"] = s
+    if maxo:
+        kw["max_pseudoknot_order"] = int(maxo[0])
+    return kw
 
 
 def observe_parse(chars):
@@ -120,7 +127,7 @@ def observe_pk(bp, sc, maxo, kind="i8"):
     a, owner = make_pairs(bp, kind)
     s = make_scores(sc, kind)
     snap_a, snap_s = owner.copy(), None if s is None else s.copy()
-    oc, res = call(lambda: pseudoknots(a, scores=s, max_pseudoknot_order=_maxo(maxo)))
+    oc, res = call(lambda: pseudoknots(a, **_kw(s, maxo)))
     ev = {"op": "pk", "bp": bp, "sc": sc, "maxo": maxo, "kind": kind,
           "obs": [oc, _rows(res) if oc == "ok" else []], "same": _same(owner, snap_a) and _same(s, snap_s)}
     if oc != "ok":
@@ -141,7 +148,7 @@ def observe_db(bp, length, sc, maxo, kind="i8"):
     a, owner = make_pairs(bp, kind)
     s = make_scores(sc, kind)
     snap_a, snap_s = owner.copy(), None if s is None else s.copy()
-    oc, res = call(lambda: dot_bracket(a, length, scores=s, max_pseudoknot_order=_maxo(maxo)))
+    oc, res = call(lambda: dot_bracket(a, length, **_kw(s, maxo)))
     notes = _notations(res) if oc == "ok" else []
     ev = {"op": "db", "bp": bp, "len": length, "sc": sc, "maxo": maxo, "kind": kind, "obs": [oc, notes],
           "back": [observe_parse(n) for n in notes], "same": _same(owner, snap_a) and _same(s, snap_s)}
@@ -175,7 +182,7 @@ def observe_fs(res_of, ap, sc, maxo):
 
     dbm.base_pairs = stub
     try:
-        oc, res = call(lambda: struc.dot_bracket_from_structure(arr, scores=s, max_pseudoknot_order=_maxo(maxo)))
+        oc, res = call(lambda: struc.dot_bracket_from_structure(arr, **_kw(s, maxo)))
     finally:
         dbm.base_pairs = orig
     notes = _notations(res) if oc == "ok" else []
@@ -488,12 +495,12 @@ def classify(mm):
 
 
 # --------------------------------------------------------------------------- orchestration
-def _dump_texts(ctx, module, cfg, stage, tag, timeout):
+def _dump_texts(ctx, module, cfg, stage, tag, timeout, workers=12):
     from harness.tlabind import tlc as T
 
     d = T.scratch_dir(tag)
     prefix = os.path.join(d, "states")
-    res = ctx.tlc(module, cfg, stage=stage, dump=prefix, timeout=timeout, workers=12)
+    res = ctx.tlc(module, cfg, stage=stage, dump=prefix, timeout=timeout, workers=workers, count=False)
     path = prefix + ".dump" if os.path.exists(prefix + ".dump") else prefix
     texts, cur = [], []
     with open(path) as f:
@@ -578,14 +585,18 @@ def _start_repo_tests(ctx):
 
     d = tlc.scratch_dir("x02rec")
     rec = os.path.join(d, "rec.json")
-    env = dict(os.environ, PYTHONPATH=tlc.VERIF + os.pathsep + os.environ.get("PYTHONPATH", ""), X02_RECORD_FILE=rec)
-    sel = "removal or empty or (dot_bracket and not from_structure)"
-    if not ctx.quick:
-        sel = "not from_structure and not test_pseudoknots"
+    env = dict(os.environ, PYTHONPATH=tlc.VERIF + os.pathsep + os.environ.get("PYTHONPATH", ""), X02_RECORD_FILE=rec,
+               X02_MAX_EVENTS="60" if ctx.quick else "160")
+    # (the two tests that need the Chemical Component Dictionary cannot run here; the random test of
+    #  20 pairs with all orders -- a dozen calls per seed -- only in the thorough tier)
+    sel = ["--deselect", "tests/structure/test_pseudoknots.py::test_pseudoknots",
+           "--deselect", "tests/structure/test_dotbracket.py::test_dot_bracket_from_structure"]
+    if ctx.quick:
+        sel += ["-k", "not test_pseudoknot_orders"]
     try:
         p = subprocess.Popen(["/venv/bin/python", "-m", "pytest", "-q", "-p", "no:cacheprovider", "-p",
                               "harness.recorders.x02_recorder", "tests/structure/test_pseudoknots.py",
-                              "tests/structure/test_dotbracket.py", "-k", sel],
+                              "tests/structure/test_dotbracket.py"] + sel,
                              cwd="/repo", env=env, stdout=subprocess.DEVNULL, stderr=subprocess.DEVNULL)
     except OSError:
         return lambda: None
@@ -624,8 +635,22 @@ def run(ctx):
                        "order) or a refused call; a notation that is rejected or uses more than one bracket type")
     wait_repo = _start_repo_tests(ctx)
 
-    # ---------------------------------------------------------------- S1 + S2: base pairs
-    res, texts = _dump_texts(ctx, "MCKnot", f"MC{tier}.cfg", "S1-knot", "x02knot", 3000)
+    # ---------------------------------------------------------------- S1: the two models side by side
+    import time
+    from concurrent.futures import ThreadPoolExecutor
+
+    def parse_model():
+        time.sleep(0.5)                    # the scratch directories of run_tlc are named by the millisecond
+        return _dump_texts(ctx, "MCParse", f"MCParse{tier}.cfg", "S1-parse", "x02parse", 3000, workers=4)
+
+    with ThreadPoolExecutor(max_workers=1) as ex:
+        fut = ex.submit(parse_model)
+        res, texts = _dump_texts(ctx, "MCKnot", f"MC{tier}.cfg", "S1-knot", "x02knot", 3000)
+        pres, ptexts = fut.result()
+    for r in (res, pres):
+        ctx.states += r.distinct
+        ctx.transitions += r.generated
+    # ---------------------------------------------------------------- S2: base pairs
     if not texts:
         raise Vacuity("MCKnot produced no computed case")
     ctx.exhaustive = True
@@ -653,8 +678,10 @@ def run(ctx):
     ctx.sample({"s2_knot_case": mid["inp"], "expected_rows": mid["res"]["pk"]["val"],
                 "expected_notations": ["".join(s) for s in mid["res"]["db"]["val"]]})
 
-    # ---------------------------------------------------------------- S1 + S2: notations
-    res, texts = _dump_texts(ctx, "MCParse", f"MCParse{tier}.cfg", "S1-parse", "x02parse", 3000)
+    # ---------------------------------------------------------------- S2: notations
+    texts = ptexts
+    if not texts:
+        raise Vacuity("MCParse produced no computed case")
     items = [{"texts": ch} for ch in helpers.chunked(texts, 400)]
     results = helpers.run_pool(ctx, "harness.drivers.x02:exec_parse_states", items, stage="S2-parse", item_timeout=300)
     classes = {}
@@ -714,10 +741,13 @@ def run(ctx):
             or len(letters - {"."}) < 60 or max_order < 2 or sorted(ARRAY_KINDS) != ctx.cov["s3_array_kinds"] \
             or not any(len(e["obs"][1]) >= 2 for e in evs if e["op"] in ("pk", "db")) \
             or not any(e["op"] == "fs" and e["ap"] == [] for e in evs):
-        raise Vacuity(f"S3: kinds of events / refusals / bracket levels / several solutions missing: {per_kind}, "
-                      f"refusals={refusals}, bracket characters={len(letters - {'.'})}, max order={max_order}")
-    ctx.sample({"s3_event": next(e for e in evs if e["op"] == "db" and len(e["obs"][1]) >= 2)})
-    ctx.sample({"s3_event": next(e for e in evs if e["op"] == "parse" and e["obs"][0] == "Rejected")})
+        # (these numbers come from what the implementation returned: when it already disagrees with
+        #  the specification, the disagreement is the verdict, not the missing coverage)
+        if not ctx.violations:
+            raise Vacuity(f"S3: kinds of events / refusals / bracket levels / several solutions missing: {per_kind}, "
+                          f"refusals={refusals}, bracket characters={len(letters - {'.'})}, max order={max_order}")
+    ctx.sample({"s3_event": next((e for e in evs if e["op"] == "db" and len(e["obs"][1]) >= 2), evs[0])})
+    ctx.sample({"s3_event": next((e for e in evs if e["op"] == "parse" and e["obs"][0] == "Rejected"), evs[0])})
     ctx.log(f"S3: {len(evs)} recorded calls in {len(traces)} histories judged by TLC: {per_kind}")
 
     # ---------------------------------------------------------------- S3b: the repository's own tests
@@ -737,7 +767,7 @@ def run(ctx):
         ctx.evaluations += len(revs)
         ctx.nontrivial += sum(1 for e in revs if _ev_nontrivial(e))
         ctx.log(f"S3-repo-tests: {len(revs)} calls of the repository's tests judged by TLC")
-        if len(revs) < 20:
+        if len(revs) < 20 and not ctx.violations:
             raise Vacuity(f"only {len(revs)} calls recorded from the repository's tests")
 
     # ---------------------------------------------------------------- binding self-test
@@ -769,6 +799,9 @@ def run(ctx):
             elif e["op"] == want and corrupt(c):
                 changed.append([c])
                 break
+    if len(changed) < 5 and ctx.violations:
+        ctx.note("binding self-test skipped: the implementation already disagrees with the specification")
+        return
     if len(changed) < 5:
         raise Vacuity(f"binding self-test: only {len(changed)} of 5 kinds of corruption could be applied")
     mm, _ = _validate(ctx, changed, "S3-selftest", selftest=True)
